@@ -179,7 +179,10 @@ def apply(ip, fname, x):
         bad = sym.le(x, 0)
         if (bad is True) or (not isinstance(bad, bool) and c.decide(bad)):
             raise I.Undefined("log of a non-positive number")
-        k = ('log', ring.key(ring.from_value(x)))
+        lp = ring.from_value(x)
+        if lp == ring.const(1):
+            return 0
+        k = ('log', ring.key(lp))
         if k in c.trig:
             return c.trig[k]
         r = c.fresh_real('log')
